@@ -608,6 +608,27 @@ def w5_bundled_state(ctx: Ctx):
                 ctx.check(o in unpacks, rel, k, f'{cls}.{name}', f'packed in the order `{o}`, which is an order a binding unpacks in', f'unpacked in {sorted(unpacks)}')
     if n < 3:
         raise ShapeError(f'only {n} bundling methods with packed state found')
+    # the body of a bundled `for` is rewritten to the carried variables' new names; a loop target the body also assigns is
+    # one of them, so the header has to name it the same way -- for a plain name as for a tuple pattern
+    rel, cls = 'fpy2/transform/for_bundling.py', '_ForBundlingInstance'
+    fn = ctx.repo.methods(rel, cls, inherited=False)['_visit_for'][2]
+    arms = {}
+    # (the match in the arm that bundles: the one next to the renaming of the body)
+    bundling = [i_ for i_ in ast.walk(fn) if isinstance(i_, ast.If) and any(call_name(k) == 'RenameTarget.apply_block' for s_ in i_.body for k in calls_in(s_))]
+    scope = bundling[0].body if bundling else []
+    for m_ in [x for s_ in scope for x in ast.walk(s_) if isinstance(x, ast.Match) and norm(x.subject) == 'stmt.target']:
+        for c_ in m_.cases:
+            for s_ in c_.body:
+                if isinstance(s_, (ast.Assign, ast.AnnAssign)) and norm(s_.targets[0] if isinstance(s_, ast.Assign) else s_.target) == 'target' and s_.value is not None:
+                    arms[norm(c_.pattern)] = s_.value
+    if not arms:
+        raise ShapeError('_visit_for: the rewriting of the loop target was not found')
+    for pat in ('NamedId()', 'TupleBinding()'):
+        v = arms.get(pat)
+        ok = v is not None and any(isinstance(x, ast.Name) and x.id == 'rename' for x in ast.walk(v))
+        ctx.check(ok, rel, v if v is not None else fn, f'{cls}._visit_for', f'a loop target of kind {pat[:-2]} is rewritten with the renaming the body gets',
+                  (f'`target = {norm(v)}`' if v is not None else f'no arm for {pat}; arms {sorted(arms)}') +
+                  ': `for x in xs: acc = acc + x; x = x * 2; acc = acc + x` keeps `x` in the header while the body reads `x5` -- the writer fails with "unbound variable"')
 
 
 def w8_sizes_are_integers(ctx: Ctx):
@@ -1012,6 +1033,8 @@ RULES = [
 from ..selftest import Mutant  # noqa: E402
 
 MUTANTS = [
+    Mutant('plain-loop-target-not-renamed-with-the-body', 'fpy2/transform/for_bundling.py', "                    target: Id | TupleBinding = rename.get(stmt.target, stmt.target)\n", "                    target: Id | TupleBinding = stmt.target\n", 'C12.W5',
+           'finding F142 before its repair: a loop target the body also assigns makes the writer fail'),
     Mutant('tensor-length-emitted-bare', BACK, "    return fpc.Ctx({ 'precision': 'integer' }, fpc.Size(arr, dim))\n", "    return fpc.Size(arr, dim)\n", 'C12.W8',
            'finding F138 before its repair: under bfloat16 a 257-element tensor has length 256'),
     Mutant('while-body-rewritten-with-the-tuple-substitution', 'fpy2/transform/while_bundling.py', "            body, _ = self._visit_block(stmt.body, ctx)\n            body = RenameTarget.apply_block(body, rename)", "            body, _ = self._visit_block(stmt.body, cond_ctx)\n            body = RenameTarget.apply_block(body, rename)", 'C12.W7',
